@@ -8,6 +8,8 @@ from .ast import is_log_block
 CONSTS = {}
 # private helpers that are not in the reviewed reference (name -> AST item): a call without arguments is rendered as its body
 INLINE = {}
+# ... and those with plain-name parameters: a call is rendered as the body with the arguments in place of the parameters
+INLINE_ARGS = {}
 
 
 def _inl(e):
@@ -16,6 +18,20 @@ def _inl(e):
     if e.get("k") == "Call" and not e["args"] and e["f"].get("k") == "Path" and e["f"]["path"].split("::")[-1] in INLINE and e["f"]["path"].split("::")[0] in ("Self", "self", e["f"]["path"]):
         return INLINE[e["f"]["path"].split("::")[-1]]
     return None
+
+
+def _inl_args(e):
+    """a call of a new private helper whose parameters are plain names: (item, argument expressions) or None"""
+    if e.get("k") == "MethodCall" and e["m"] in INLINE_ARGS and e["args"] and e["recv"].get("k") == "Path" and e["recv"]["path"] == "self":
+        it = INLINE_ARGS[e["m"]]
+    elif e.get("k") == "Call" and e["args"] and e["f"].get("k") == "Path" and e["f"]["path"].split("::")[-1] in INLINE_ARGS and e["f"]["path"].split("::")[0] in ("Self", "self", e["f"]["path"]):
+        it = INLINE_ARGS[e["f"]["path"].split("::")[-1]]
+    else:
+        return None
+    ps = [p for p in it["sig"]["params"] if p.get("name") != "self"]
+    if len(ps) != len(e["args"]) or any((p.get("pat") or {}).get("k") != "PIdent" for p in ps):
+        return None
+    return it, [p["pat"]["name"] for p in ps]
 
 
 def _pat_names(p, out):
@@ -34,7 +50,8 @@ def _pat_names(p, out):
             _pat_names(f["pat"], out)
 
 
-def render(body_or_expr, params=(), subst=None, show=None, prefix="p"):
+def render(body_or_expr, params=(), subst=None, show=None, prefix="p", depth=None):
+    depth = depth or [0]
     if show is None:
         from .flat import show
     """params: list of parameter patterns (positional names p1.. / a1..), subst: name -> text for captured values"""
@@ -125,6 +142,20 @@ def render(body_or_expr, params=(), subst=None, show=None, prefix="p"):
             return ex(e["e"]) + "." + e["name"]
         if k in ("MethodCall", "Call") and _inl(e) is not None:
             return "{%s}" % blk(_inl(e)["body"])
+        if k in ("MethodCall", "Call") and _inl_args(e) is not None and depth[0] < 3:
+            it, pnames = _inl_args(e)
+            sub2 = dict(subst)
+            sub2.update(names)
+            for pn, a in zip(pnames, e["args"]):
+                sub2[pn] = ex(a).lstrip("*&")
+            body = it["body"]
+            depth[0] += 1
+            try:
+                if len(body) == 1 and body[0]["k"] == "ExprStmt" and not body[0].get("semi"):
+                    return render(body[0]["e"], (), sub2, show, prefix, depth)
+                return "{%s}" % render(body, (), sub2, show, prefix, depth)
+            finally:
+                depth[0] -= 1
         if k == "MethodCall":
             if e["m"] in ("parse_error", "emit_error", "expect") and e["args"]:
                 return "%s.%s(_)" % (ex(e["recv"]), e["m"])
